@@ -332,6 +332,10 @@ CONFLICT_SCRIPTS = [
     (("codeRes2",), ("out_add_front",), ("out_del",), {}, {}),   # insert before a deleted output
     (("codeA",), ("src8",), ("src9",), {}, {}),                  # insert a line before a deleted line
     (("codeA",), ("keep",), ("keep",), {0: ("N2", "N3", "N1")}, {0: ("N4", "N1s")}),   # unequal runs + similar tail
+    (("codeRes2",), ("rerun",), ("rerun2",), {}, {}),            # output conflict + execution counts differ
+    (("codeA",), ("out_edit_add",), ("out_edit2_add2",), {}, {}),   # conflict + common and one-sided appended outputs
+    (("codeRes2",), ("out_edit",), ("out_edit_md",), {}, {}),    # conflict + one-sided nested change in the same list
+    (("codeA",), ("del",), ("edit_rerun",), {}, {}),              # delete vs edit source and outputs
 ]
 
 
@@ -343,7 +347,8 @@ ACTS_INS = ["keep", "del", "src1"]
 ACTS_KEEP = ["keep"]
 ACTS_TRANSIENT = ["keep", "md_del_collapsed", "md_collapsed", "md_scrolled_true", "md_scrolled_auto", "md_edit", "ec"]
 ACTS_LONG = ["keep", "src1", "src2", "src3", "src4", "src7", "src8", "src9", "del"]
-ACTS_OUTS = ["keep", "out_add_front", "out_ec", "out_del", "out_del_last", "out_edit", "out_add", "out_add2", "rerun"]
+ACTS_OUTS = ["keep", "out_add_front", "out_ec", "out_del", "out_del_last", "out_edit", "out_add", "out_add2", "rerun",
+             "rerun2", "out_edit_add", "out_edit2_add2", "out_edit_md", "edit_rerun", "del"]
 ACTS_EMPTYSRC = ["keep", "src1", "src7", "src4"]
 ACTS_LINES = ["keep", "src1", "src8", "src9", "src3"]
 ACTS_F13 = ["src1", "src4"]
@@ -830,7 +835,7 @@ STUBS = ["nbdime.prettyprint.which -> answers according to the tool selector (gi
 BOUNDS = {
     "quick": {
         "default-strategy scripts": "one-cell bases over 8 templates: (i) every local action x every remote action (17 code / 11 markdown actions), (ii) every insertion combination (4 x 5) x {keep, del, src1}^2, (iii) notebook-level actions {keep, md_edit, md_add, md_del, minor}^2 on two templates; two-cell base codeA+codeB x 6 actions per cell and side; ids on/off",
-        "strategy product": "30 conflict-prone script pairs x (4 merge x 5 input x 7 output strategies x transients on/off + mergetool) x {git, diff3, builtin}",
+        "strategy product": "34 conflict-prone script pairs x (4 merge x 5 input x 7 output strategies x transients on/off + mergetool) x {git, diff3, builtin}",
         "leaves": "symbolic: execution counts, metadata values (any JSON scalar type), JSON payload numbers, nbformat_minor of each notebook (0..4, or 5 with ids)",
     },
     "thorough": {
